@@ -544,7 +544,7 @@ def _reap_variant(child, kill=False):
         except Exception as exc:  # noqa
             return {"harness_error": f"no evidence from the child: {exc!r} {stderr[-800:]}"}
         cov = ev["coverage"]
-        summary = {"env": " ".join(f"{k}={v}" for k, v in sorted(child["env"].items())),
+        summary = {"env": " ".join(f"{k}={v}" for k, v in sorted(child["env"].items())) + " aioswitcher-logger=DEBUG",
                    "sample_of_each_subcheck": HOST_VARIANT_SCALE,
                    "evaluations": cov["evaluations"], "distinct_nontrivial": cov["distinct_nontrivial"],
                    "per_subcheck_evaluations": cov["per_subcheck_evaluations"], "inconclusive": cov["inconclusive"],
@@ -603,7 +603,7 @@ def write_evidence(module, rep, subs, wall, nviol, sub_wall, variant=None):
         ev["coverage"]["host_variant_pass"] = variant["summary"]
         ev["coverage"]["rule"] += (" A second pass (coverage.host_variant_pass, counted apart) runs a 30 % sample of every sub-check "
                                    "in a child interpreter with assert statements stripped (PYTHONOPTIMIZE=1) under the C locale "
-                                   "without UTF-8 mode.")
+                                   "without UTF-8 mode and with the library's logger at DEBUG.")
     d = os.environ.get("VERIF_EVIDENCE_DIR") or os.path.join(VERIF_DIR, "evidence")
     os.makedirs(d, exist_ok=True)
     tmp = os.path.join(d, f".{module.PROP}.json.tmp")
